@@ -65,6 +65,24 @@ func MineNext(p *chaincfg.Params, chain []wire.BlockHeader) *wire.BlockHeader {
 type BMStats struct {
 	mu                                     sync.Mutex
 	Constructed, HeadersHandled, TipsMoved int64
+	// ServiceRestarts counts restarts made through NewChainService.
+	ServiceRestarts int64
+}
+
+func (s *BMStats) addService() {
+	if s == nil {
+		return
+	}
+	s.mu.Lock()
+	s.ServiceRestarts++
+	s.mu.Unlock()
+}
+
+// Services returns how many restarts went through NewChainService.
+func (s *BMStats) Services() int64 {
+	s.mu.Lock()
+	defer s.mu.Unlock()
+	return s.ServiceRestarts
 }
 
 func (s *BMStats) add(c, h, t int64) {
